@@ -753,3 +753,140 @@ Proof.
   - pose proof (run_measure _ _ (step c) measure (step_measure c) sched (init msgs) s Hr). lia.
   - eapply (reaches_quiescence _ _ (step c) measure pick (step_measure c) (pick_spec c) (measure s)). lia.
 Qed.
+
+(** ------------------------------------------------------------------ theorems of Props.v *)
+Lemma today_is_fixed : cfg_fixed today = true.
+Proof. vm_compute. reflexivity. Qed.
+
+Lemma today_init_queue : init_allows_requests = false.
+Proof. reflexivity. Qed.
+
+Lemma one_response_per_request : forall (msgs : list msg) (sched : list label) (s : state),
+  lifecycle_ok msgs = true ->
+  run (step today) (init msgs) sched = Some s ->
+  quiescent (step today) s ->
+  forall i, count_out i (st_out s) = count_req i msgs.
+Proof. intros. eapply one_response_gen; try eassumption. exact today_is_fixed. Qed.
+
+Lemma never_more_than_one_response : forall (msgs : list msg) (sched : list label) (s : state) (i : rid),
+  run (step today) (init msgs) sched = Some s -> (count_out i (st_out s) <= count_req i msgs)%nat.
+Proof. intros. eapply never_more_than_one; eassumption. Qed.
+
+Lemma server_keeps_serving : forall (msgs : list msg) (sched : list label) (s : state),
+  run (step today) (init msgs) sched = Some s ->
+  (lifecycle_ok msgs = true -> st_stage s <> SCrashed) /\
+  (keeps_running msgs = true -> st_stage s <> SStopped /\ st_stage s <> SShutdownWait /\ st_stage s <> SCrashed) /\
+  (List.length sched <= measure (init msgs))%nat /\
+  (exists sched' s', run (step today) s sched' = Some s' /\ quiescent (step today) s').
+Proof. intros. apply keeps_serving_gen; [exact today_is_fixed|assumption]. Qed.
+
+(** the configurations before each repair *)
+Definition without_extract_err : cfg :=
+  {| c_methods := request_methods; c_extract_err := false; c_catch_panic := true; c_init_unwrap := false;
+     c_init_notifs := init_allowed_notifications; c_init_resps := init_allows_responses |}.
+Definition without_catch_panic : cfg :=
+  {| c_methods := request_methods; c_extract_err := true; c_catch_panic := false; c_init_unwrap := false;
+     c_init_notifs := init_allowed_notifications; c_init_resps := init_allows_responses |}.
+Definition with_init_unwrap : cfg :=
+  {| c_methods := request_methods; c_extract_err := true; c_catch_panic := true; c_init_unwrap := true;
+     c_init_notifs := init_allowed_notifications; c_init_resps := init_allows_responses |}.
+
+Local Open Scope N_scope.
+
+Definition handshake : list msg :=
+  [MReq 0 "initialize" true; MNotif "initialized" None].
+
+Lemma bad_params_refuted :
+  exists (msgs : list msg) (sched : list label) (s : state),
+    lifecycle_ok msgs = true /\
+    run (step without_extract_err) (init msgs) sched = Some s /\
+    quiescent (step without_extract_err) s /\
+    count_req 7 msgs = 1%nat /\ count_out 7 (st_out s) = 0%nat /\
+    (* ... while the unknown method next to it is answered *)
+    count_req 8 msgs = 1%nat /\ count_out 8 (st_out s) = 1%nat.
+Proof.
+  set (msgs := handshake ++ [MReq 7 "textDocument/hover" false; MReq 8 "no/such" true]).
+  set (sched := [LMain; LMain; LInitDone; LMain; LMain; LMain]).
+  destruct (run (step without_extract_err) (init msgs) sched) as [s|] eqn:E; [|vm_compute in E; discriminate].
+  exists msgs, sched, s. split; [reflexivity|]. split; [exact E|].
+  vm_compute in E. inversion E; subst s; clear E.
+  split; [apply quiescentb_sound; reflexivity|]. repeat split; reflexivity.
+Qed.
+
+Lemma panic_refuted :
+  exists (msgs : list msg) (sched : list label) (s : state),
+    lifecycle_ok msgs = true /\
+    run (step without_catch_panic) (init msgs) sched = Some s /\
+    quiescent (step without_catch_panic) s /\
+    count_req 7 msgs = 1%nat /\ count_out 7 (st_out s) = 0%nat /\
+    (* the cancellations entry of the dead task is never removed *)
+    st_cmap s <> [].
+Proof.
+  set (msgs := handshake ++ [MReq 7 "textDocument/hover" true]).
+  set (sched := [LMain; LMain; LInitDone; LMain; LMain; LTask 0 HPanic]).
+  destruct (run (step without_catch_panic) (init msgs) sched) as [s|] eqn:E; [|vm_compute in E; discriminate].
+  exists msgs, sched, s. split; [reflexivity|]. split; [exact E|].
+  vm_compute in E. inversion E; subst s; clear E.
+  split; [apply quiescentb_sound; reflexivity|]. repeat split; try reflexivity. discriminate.
+Qed.
+
+Lemma init_caps_refuted :
+  exists (msgs : list msg) (sched : list label) (s : state),
+    lifecycle_ok msgs = true /\
+    run (step with_init_unwrap) (init msgs) sched = Some s /\
+    quiescent (step with_init_unwrap) s /\
+    st_stage s = SCrashed /\
+    count_req 0 msgs = 1%nat /\ count_out 0 (st_out s) = 0%nat /\
+    (* the retry and the request after it are never answered either *)
+    count_req 1 msgs = 1%nat /\ count_out 1 (st_out s) = 0%nat.
+Proof.
+  set (msgs := [MReq 0 "initialize" false; MReq 1 "initialize" true; MNotif "initialized" None]).
+  set (sched := [LMain]).
+  destruct (run (step with_init_unwrap) (init msgs) sched) as [s|] eqn:E; [|vm_compute in E; discriminate].
+  exists msgs, sched, s. split; [reflexivity|]. split; [exact E|].
+  vm_compute in E. inversion E; subst s; clear E.
+  split; [apply quiescentb_sound; reflexivity|]. repeat split; reflexivity.
+Qed.
+
+(** a session that uses every path: a request before initialize, a malformed initialize, the
+    handshake, requests queued during initialization, a cancellation that arrives while the task
+    runs, a panic, a handler returning None, malformed params, an unknown method, duplicate ids,
+    shutdown and exit — under one particular interleaving *)
+Definition example_msgs : list msg :=
+  [MReq 1 "textDocument/hover" true;           (* before initialize: -32002 *)
+   MReq 2 "initialize" false;                  (* malformed: -32602, server keeps waiting *)
+   MReq 3 "initialize" true; MNotif "initialized" None;
+   MReq 4 "textDocument/hover" true;           (* queued during initialization *)
+   MNotif "$/cancelRequest" (Some 4);          (* processed at once: nothing to cancel yet *)
+   MReq 5 "textDocument/completion" false;     (* queued; -32602 on replay *)
+   MReq 6 "textDocument/definition" true;
+   MNotif "$/cancelRequest" (Some 6);
+   MReq 7 "textDocument/rename" true;          (* will panic *)
+   MReq 8 "workspace/symbol" true;             (* will return None *)
+   MReq 9 "no/such" true;
+   MReq 4 "textDocument/hover" true;           (* duplicate id *)
+   MResp 77;
+   MReq 10 "shutdown" false; MNotif "exit" None].
+
+Definition example_sched : list label :=
+  [LMain; LMain; LMain; LMain;                 (* 1, 2, 3, initialized *)
+   LMain; LMain; LMain;                        (* 4 queued, cancel 4 handled, 5 queued *)
+   LInitDone; LMain; LMain; LMain;             (* replay 4 (spawn), 5 (error); pending empty -> run *)
+   LMain; LMain;                               (* 6 spawned, cancel 6 *)
+   LTask 0 HOk;                                (* first 4 answers ok *)
+   LMain; LMain; LMain; LMain;                 (* 7, 8 spawned, 9 unknown, second 4 spawned *)
+   LTask 0 HOk;                                (* 6: cancelled *)
+   LTask 0 HPanic; LTask 0 HNone;              (* 7, 8: internal error *)
+   LMain; LMain; LMain;                        (* response, shutdown, exit *)
+   LTask 0 HOk].                               (* second 4 answers after the loop ended *)
+
+Lemma session_example :
+  lifecycle_ok example_msgs = true /\
+  match run (step today) (init example_msgs) example_sched with
+  | Some s => quiescentb s = true /\ st_stage s = SStopped /\
+              rev (st_out s) =
+              [(1, CNotInitialized); (2, CInvalidParams); (3, COk); (5, CInvalidParams); (4, COk);
+               (9, CMethodNotFound); (6, CCancelled); (7, CInternal); (8, CInternal); (10, COk); (4, COk)]
+  | None => False
+  end.
+Proof. vm_compute. repeat split; reflexivity. Qed.
